@@ -249,7 +249,7 @@ def run(ctx):
                 dict(MaxN=4, MaxUnits=2, MaxEdges=0, MaxEdgesBig=2, Salt=0, EmitMod=7, CheckSplit="FALSE", KindN=0, FewSubsets="TRUE", RootN=0),
                 dict(MaxN=5, MaxUnits=1, MaxEdges=0, MaxEdgesBig=1, Salt=7, EmitMod=3, CheckSplit="FALSE", KindN=0, FewSubsets="FALSE", RootN=0)]
     stats = {"runs": 0, "exact": 0, "expected_err": 0}
-    decisive, dtags, dlocs = set(), set(), set()
+    decisive, dtags, dlocs, dshapes = set(), set(), set(), set()
     allk = set()
     guilty = set()
     recheck = []
@@ -266,6 +266,7 @@ def run(ctx):
             decisive.update(c["decisive"]); dtags.update(c["dtags"])
             if v == 5:
                 dlocs.update(c.get("dlocs", []))
+            dshapes.update(c.get("dshapes", []))
             # single-unit graphs are also converted as a split unit through a skeleton unit
             # (FilterUnitSection::new_split -> ConvertUnit::convert_split_with_filter)
             if c["nunits"] == 1 and i % 2 == 0:
@@ -299,8 +300,11 @@ def run(ctx):
     for k in ("offset_pair", "start_end", "start_length", "startx_endx", "startx_length", "default_location"):
         if k not in dlocs:
             ctx.cov["not_exercised"].append("location entry kind never decisive in a DWARF 5 case: " + k)
+    for k in ("normal", "empty", "reversed", "tomb", "tombbase"):
+        if k not in dshapes:
+            ctx.cov["not_exercised"].append("location entry range shape never decisive: " + k)
     extra = {"required_subsets_replayed": stats["runs"], "exact_closure": stats["exact"], "expected_errors": stats["expected_err"],
-             "decisive_kinds": sorted(decisive), "decisive_tags": len(dtags), "decisive_loc_entry_kinds": sorted(dlocs)}
+             "decisive_kinds": sorted(decisive), "decisive_tags": len(dtags), "decisive_loc_entry_kinds": sorted(dlocs), "decisive_loc_range_shapes": sorted(dshapes)}
 
     # ---------------------------------------------------------------- V
     kinds = ["attr_unit", "attr_info", "x_call", "x_callref", "x_paramref", "x_deref_type", "x_regval_type", "x_const_type",
